@@ -2307,6 +2307,17 @@ class WBEMConnection:  # pylint: disable=too-many-instance-attributes
 
         # #  Original code return tup_tree
 
+        def unpack_boolean(value):
+            """
+            Convert one CIM-XML boolean string into bool.
+            """
+            if not isinstance(value, str):
+                # e.g. a reference in an array declared as boolean
+                raise TypeError(
+                    _format("Invalid type for a boolean value: {0}",
+                            type(value)))
+            return tp.unpack_boolean(value)
+
         def typed_value(value, type_, element):
             """
             Convert the CIM-XML string value(s) of a RETURNVALUE or PARAMVALUE
@@ -2317,10 +2328,10 @@ class WBEMConnection:  # pylint: disable=too-many-instance-attributes
                     # cimvalue() uses Python truth testing, which would turn
                     # the CIM-XML string 'FALSE' into True.
                     if isinstance(value, list):
-                        return [v if v is None else tp.unpack_boolean(v)
+                        return [v if v is None else unpack_boolean(v)
                                 for v in value]
                     if isinstance(value, str):
-                        return tp.unpack_boolean(value)
+                        return unpack_boolean(value)
                 return cimvalue(value, type_)
             except (TypeError, ValueError) as exc:
                 new_exc = CIMXMLParseError(
